@@ -10,6 +10,7 @@ inductive Act where
   | beginBuild            -- enter `@dag`: take the lock, reset the global table
   | record (f : Nat)      -- a decorated function is called inside the describing function
   | endBuild              -- leave `@dag`: package the table, release the lock
+  | abortBuild            -- the describing function raises: nothing is built, the lock is released
   | callFn (f : Nat)      -- a decorated function is called outside any describing function of this thread
   | callDag (d : Nat)     -- an already built DAG is called by this thread outside its own describing function
 deriving DecidableEq, Repr
@@ -19,6 +20,7 @@ inductive Obs where
   | built (table : List Nat)   -- result of endBuild: the recorded call sites
   | ranFn (f : Nat)            -- the wrapped function was executed (or the configured error raised)
   | ranDag (d : Nat)           -- the DAG was executed and a value returned
+  | buildFailed                -- the build raised (the describing function's own exception)
   | gotRef                     -- a `UsageExecNode` was returned instead of a value (only right while describing)
   | unit
 deriving DecidableEq, Repr
@@ -40,6 +42,7 @@ def act (v : Variant) (g : G) (t : Tid) : Act → Option (G × Obs)
   | .beginBuild => if g.owner.isSome then none else some ({ owner := some t, table := [] }, .unit)
   | .record f => some ({ g with table := g.table ++ [f] }, .gotRef)        -- only issued by a thread inside its own build
   | .endBuild => some ({ owner := none, table := [] }, .built g.table)
+  | .abortBuild => some ({ owner := none, table := [] }, .buildFailed)
   | .callFn f => if describing v g t then some ({ g with table := g.table ++ [f] }, .gotRef) else some (g, .ranFn f)
   | .callDag d => if describing v g t then some ({ g with table := g.table ++ [1000 + d] }, .gotRef) else some (g, .ranDag d)
 
@@ -50,6 +53,7 @@ def wellBracketed : Bool → List Act → Bool
   | false, .beginBuild :: r => wellBracketed true r
   | true, .record _ :: r => wellBracketed true r
   | true, .endBuild :: r => wellBracketed false r
+  | true, .abortBuild :: r => wellBracketed false r
   | false, .callFn _ :: r => wellBracketed false r
   | false, .callDag _ :: r => wellBracketed false r
   | _, _ => false
